@@ -18,7 +18,7 @@ PROP = "C15"
 LEVEL = "model_checking"
 FIDELITY_TESTS = ["tests"]
 BOUNDS = {
-    "quick": {"documents": "13 document shapes to depth 3 (objects, arrays, empties, scalars at the top, nested arrays), <= 4 children per node",
+    "quick": {"documents": "17 document shapes to depth 3 (objects, arrays, empties, scalars at the top, nested arrays), <= 4 children per node",
               "leaves": "all int64 integers, all binary64 doubles (NaN excluded: not JSON), strings of 0..2 code points (all scalar values); true/false/null enumerated",
               "paths": "every valid path into each shape, navigated with .field, [\"key\"] and [i] under both runners"},
     "thorough": {"documents": "the same shapes plus all permutations of leaf kinds in the 4-child array/object shapes", "leaves": "same", "paths": "same"},
@@ -55,6 +55,7 @@ SHAPES = [
     {"a": {"b": {"c": I, "d": [F, S0]}}},
     [[I, I], [S1], []],
     {"t": True, "f": False, "one": I, "zero": I},
+    [[True, I]], [I, [False, S1]], {"k": [[True]], "n": [I, [None, False]]}, [[[False]], I],
 ]
 
 
@@ -359,7 +360,7 @@ def extra_validation():
         ws.append({"check": "c15.special", "args": {"kind": "timestamp", "value": t}})
     for d in (0, 1, -1, 3600, 86400, -86400, 315576000000):
         ws.append({"check": "c15.special", "args": {"kind": "duration", "value": d}})
-    for b in ([], [0], [255, 254, 253], [104, 105], list(range(256))):
+    for b in ([], [0], [255, 254, 253], [104, 105], list(range(256)), [255], [251, 239], [0, 0, 62], [63, 255, 254], [251, 255, 191]):
         ws.append({"check": "c15.special", "args": {"kind": "bytes", "value": b}})
     ws += [{"check": "c15.text_document", "args": {"text": t}} for t in
            ['{"a": 1, "b": [true, false, null, 1.5, "x"], "c": {"d": -9223372036854775808, "e": 9223372036854775807}}', '[1, 1.0, true, "1"]',
